@@ -65,12 +65,14 @@ class JSONStore(MutableMapping):
         try:
             with open(self.json_store, "r") as fp:
                 self.store = json.load(fp)
+            if not isinstance(self.store, dict):
+                raise ValueError("JSONStore file does not hold a JSON object")
             self.logger.info(
                 "JSONStore loading: {}".format(self.json_store)
             )
         except IOError as e:
             self.store = {}
-        except ValueError as e:
+        except (ValueError, RecursionError) as e:
             self.logger.warning(
                 "JSONStore {} does not contain valid JSON".format(
                     self.json_store
